@@ -759,6 +759,9 @@ def check(run):
     run.rule(c09.r09, run)
     run.rule(c10.r10c, run)
     run.rule(c10.r10g, run)
+    from . import c04
+    run.rules_run.append("R10e")
+    run.rule(c10.r10e, run, c04.in_scope_functions(run))
     # a nested object keeps its own minProperties / maxProperties / additionalProperties only if the context of a nested
     # class carries that class's options
     from . import c18
